@@ -7,6 +7,7 @@ mod c16;
 mod c17;
 mod enc;
 mod gen;
+mod hist;
 mod rng;
 
 use rng::Rng;
@@ -30,6 +31,13 @@ fn main() {
         let line = std::panic::catch_unwind(std::panic::AssertUnwindSafe(|| match kind {
             "C16" => c16::case(&mut rng),
             "C17" => c17::case(&mut rng),
+            "H03" => hist::case(&mut rng, &hist::Weights { apply_func: 2, compose0: 4, compose1: 4, elim: 6, reduce: 1, arith_tree: 3, arith_aff: 1, neg: 1, faults: false, partial16: 4, max_steps: 6 }, "C03"),
+            "H04" => hist::case(&mut rng, &hist::Weights { apply_func: 3, compose0: 3, compose1: 3, elim: 3, reduce: 3, arith_tree: 3, arith_aff: 2, neg: 1, faults: false, partial16: 4, max_steps: 10 }, "C04"),
+            "H05" => hist::case(&mut rng, &hist::Weights { apply_func: 2, compose0: 4, compose1: 3, elim: 6, reduce: 2, arith_tree: 2, arith_aff: 1, neg: 1, faults: false, partial16: 2, max_steps: 8 }, "C05"),
+            "H06" => hist::case(&mut rng, &hist::Weights { apply_func: 2, compose0: 6, compose1: 1, elim: 8, reduce: 0, arith_tree: 0, arith_aff: 1, neg: 0, faults: false, partial16: 0, max_steps: 8 }, "C06"),
+            "H07" => hist::case(&mut rng, &hist::Weights { apply_func: 1, compose0: 2, compose1: 0, elim: 1, reduce: 0, arith_tree: 8, arith_aff: 5, neg: 2, faults: false, partial16: 4, max_steps: 5 }, "C07"),
+            "H08" => hist::case(&mut rng, &hist::Weights { apply_func: 2, compose0: 4, compose1: 1, elim: 2, reduce: 8, arith_tree: 1, arith_aff: 1, neg: 1, faults: false, partial16: 3, max_steps: 7 }, "C08"),
+            "H11" => hist::case(&mut rng, &hist::Weights { apply_func: 1, compose0: 4, compose1: 4, elim: 8, reduce: 0, arith_tree: 2, arith_aff: 0, neg: 0, faults: true, partial16: 3, max_steps: 6 }, "C11"),
             "C02" => c02::case(&mut rng, false),
             "C02T" => c02::case(&mut rng, true),
             "C12" => c12::case(&mut rng, false),
